@@ -157,6 +157,10 @@ class World:
         self.cur_handle = None
         self.n_obs = 0
         self.bug = None
+        self.events = [asyncio.Event() for _ in range(2)]
+        self.locks = [asyncio.Lock() for _ in range(2)]
+        self.queues = [asyncio.Queue() for _ in range(2)]
+        self.in_ext = set()
         self.cur_class = None
 
     # ------------------------------------------------------------------ identity helpers
@@ -224,6 +228,12 @@ class World:
             self.lines.append((line, answer))
 
     def _on_loop_error(self, loop, context):
+        if "never retrieved" in str(context.get("message", "")):
+            # an orphaned future (e.g. the outer future of shield() after its only waiter was
+            # interrupted away) failed later and nobody looked: asyncio's hygiene warning about
+            # the awaited object's owner, not an error of a callback.  Counted, not judged.
+            self.tags.add("orphaned-future-exception-logged-at-gc")
+            return
         self.handler_calls.append(repr(context.get("exception") or context.get("message"))[:200])
 
     def problem(self, kind, detail):
@@ -413,6 +423,12 @@ class World:
         elif op == "cscb":
             loop.call_soon(_noop)
             self.emit("cscb", "ok")
+        elif op == "evset":          # untraced scenarios only
+            self.events[a[1] % 2].set()
+            return
+        elif op == "qput":
+            self.queues[a[1] % 2].put_nowait(0)
+            return
         elif op == "throw":
             if not self.tasks:
                 return
@@ -592,10 +608,38 @@ class World:
             await self.do_interrupt(wid, t, bool(op[2]))
         elif k == "a":
             self.do_action(op[1], who=wid)
+        elif k in ("ev", "qget", "wsh", "lock"):
+            # stdlib primitives may suspend several times internally (Queue.get loops)
+            self.in_ext.add(wid)
+            try:
+                await self.do_ext(wid, op)
+            finally:
+                self.in_ext.discard(wid)
         elif k in ("ret", "raise"):
             return
         else:
             raise HarnessBug(f"unknown op {op}")
+
+    async def do_ext(self, wid, op):
+        k = op[0]
+        self.marker = ("ext",)
+        if k == "ev":
+            self.tags.add("wait-event")
+            await self.events[op[1] % 2].wait()
+        elif k == "qget":
+            self.tags.add("queue-get")
+            await self.queues[op[1] % 2].get()
+        elif k == "wsh":
+            if not self.futs:
+                return
+            self.tags.add("await-shielded-future")
+            await asyncio.shield(self.futs[op[1] % len(self.futs)])
+        elif k == "lock":
+            self.tags.add("lock-section")
+            async with self.locks[op[1] % 2]:
+                self.in_ext.discard(wid)
+                for inner in op[2]:
+                    await self.do_op(wid, inner)
 
     async def do_interrupt(self, wid, t, cd):
         task = self.tasks[t]
@@ -607,6 +651,9 @@ class World:
         self.marker = ("interrupt", t, e, was_blocked, before)
         try:
             await self.intr.task_interrupt(task, e)
+        except (IntrPlain, IntrCancel):
+            self.tags.add("interrupted-while-inside-task_interrupt")
+            raise
         except RuntimeError:
             if self.handles_run != n0 or self.marker is None or self.marker[0] != "interrupt":
                 raise
@@ -655,6 +702,8 @@ class World:
             task = self.tasks[t]
             m = self.marker
             self.marker = None
+            if m is None and not task.done() and t in self.in_ext:
+                m = ("ext",)
             if m is None:
                 if not task.done():
                     raise HarnessBug(f"task {t} suspended without telling the harness")
@@ -671,6 +720,9 @@ class World:
                 self.tags.add("task_interrupt")
             elif m[0] == "fut":
                 self.emit(f"end fut {m[1]}", "ok")
+            elif m[0] == "ext":
+                if self.tracing:
+                    raise HarnessBug("untraceable suspension in a traced case")
             else:
                 self.emit(f"end {m[0]}", "ok")
         if drain:
@@ -768,10 +820,15 @@ class World:
         """Release every input and let everything finish (not part of the recorded trace)."""
         self.mode = "drain"
         loop = self.loop
-        for _ in range(200):
+        for _ in range(30):
             for f in self.futs:
                 if not f.done():
                     f.set_result(None)
+            for ev in self.events:
+                ev.set()
+            for q in self.queues:
+                for _ in range(4):
+                    q.put_nowait(0)
             for _ in range(2000):
                 if not self.ready_list():
                     break
@@ -779,8 +836,6 @@ class World:
                 loop.run_forever()
             if all(t.done() for t in self.tasks) and not self.ready_list():
                 return
-            if all(f.done() for f in self.futs) and not self.ready_list():
-                break
         stuck = [i for i, t in enumerate(self.tasks) if not t.done()]
         if stuck:
             self.problem("workers did not finish after all inputs were released", str(stuck))
